@@ -517,6 +517,33 @@ def c19(res, tier, seed):
         execs.append({"rules": rules, "scans": [scanmod.scan(f, data, sizes)], "kind": "c19-cap", "pre_opts": ["opt arenasize %d" % r.choice(caps[:3])]})
     scanmod.run_chunks(res, "C19", execs, "asan", "c19_scan")
     # (3) a rule set large enough to grow the default 1 MiB buffers == the same rules compiled in groups
+    # the compiler's own checks while its buffers move: tag lists with and without a repeated tag, string / meta / rule identifiers
+    # repeated inside one rule set - rejected with the error on the line of the repetition at every capacity, accepted otherwise
+    tcases = [("rule v : aa bb cc dd ee { condition: true }", []), ("rule d : aa bb aa { condition: true }", [1]), ("rule d2 : aa bb cc dd bb { condition: true }", [1]),
+              ("rule a { condition: true }\nrule b : x y z { condition: a }\nrule a { condition: false }", [3]),
+              ('rule s { strings: $a = "x" $b = "y" $a = "z" condition: any of them }', [1]),
+              ("rule l : t1 t2 t3 t4 t5 t6 t7 t8 t9 t10 t11 t12 t13 t14 t15 t16 { condition: true }", []),
+              ("rule l2 : t1 t2 t3 t4 t5 t6 t7 t8 t9 t10 t11 t12 t13 t14 t15 t1 { condition: true }", [1])]
+    exe_c = yv.driver("asan")
+    tl = ["init"]
+    tplan = []
+    for cap in caps:
+        for src, exp in tcases:
+            tl += ["opt arenasize %d" % cap, "compiler 0", "add 0 - " + yv.hx(src.encode()), "cdestroy 0"]
+            tplan.append((cap, src, exp))
+    tl += ["opt arenasize 0", "finalize"]
+    trun = yv.run_script(exe_c, tl, wd, name="c19_tags")
+    if not trun.complete:
+        res.violation("tag lists / repeated identifiers under small arena capacities: %s" % yv.crash_summary(trun), yv.save_replay("C19", "tags_crash", {"crash": yv.crash_summary(trun), "script": trun.script_path}))
+    trecs, town = [], []
+    for (cap, src, exp), e in zip(tplan, [e for e in trun.events if e["e"] == "Compile"]):
+        got = [d["line"] for d in e["diag"] if d["lvl"] == "error"]
+        trecs.append({"kind": "errlines", "expected": exp, "got": got}); town.append((cap, src, got)); res.count(1, ("tags", cap, src))
+    tb, tk, tstates = func.tlc_judge2(trecs, wd, "c19_tags")
+    res.cov["states"] += tstates; res.cov["transitions"] += tstates
+    res.cov["traces_validated_against_impl"] += len(trecs) - len(tb)
+    for b_ in tb[:10]:
+        res.violation("initial arena capacity %d: `%s` reports errors on lines %s" % town[b_], yv.save_replay("C19", "tags_%d" % b_, {"case": town[b_], "record": trecs[b_]}))
     big_check(res, r, wd, tier)
     # (4) a few hundred rules under tiny capacities: the Aho-Corasick tables, the code and the string pool relocate many times
     #     while they are being filled (ahocorasick.c _yr_ac_build_transition_table, parser.c)
